@@ -66,6 +66,31 @@ pub fn replay(args: &Args, s: &mut Summary) {
         if h.iter().any(|k| gets(&items[*k], "kind") == "tl") && h.iter().any(|k| section_of(gets(&items[*k], "kind")) == "General") {
             s.nontrivial_key(&c["h"].to_string());
         }
+        if prop == "C02" {
+            // decode -> encode -> decode on files whose sections come in any order (timing lines and objects chronological)
+            let taus: Vec<i64> = h.iter().filter(|k| gets(&items[**k], "kind") == "tl").map(|k| geti(&lines[items[*k]["v"].as_u64().unwrap() as usize - 1], "tau")).collect();
+            let ots: Vec<i64> = h.iter().filter(|k| gets(&items[**k], "kind") == "obj").map(|k| geti(&objs[items[*k]["v"].as_u64().unwrap() as usize - 1], "t")).collect();
+            if taus.windows(2).any(|w| w[1] < w[0]) || ots.windows(2).any(|w| w[1] < w[0]) {
+                return;
+            }
+            // a [General] Mode record read AFTER a timing line: the line was read with the mode known then, the encoder
+            // writes with the final one
+            let first_tl = h.iter().position(|k| gets(&items[*k], "kind") == "tl");
+            let mode_after_tl = first_tl.map_or(false, |p| h[p..].iter().any(|k| gets(&items[*k], "kind") == "mode"));
+            s.checks += 1;
+            match guarded(&format!("flow roundtrip {text:?}"), || crate::roundtrip::roundtrip(&text)) {
+                Err(p) => s.mismatch("panic", json!({"text": text, "panic": p})),
+                Ok(Err(e)) => s.mismatch("roundtrip-step-failed", json!({"text": text, "err": e})),
+                Ok(Ok((m1, _, m2))) => {
+                    let d = crate::roundtrip::c02_diffs(&m1, &m2);
+                    if !d.is_empty() {
+                        let timeline_only = d.iter().all(|x| x.starts_with("slider velocity timeline") || x.starts_with("scroll speed timeline") || x.ends_with(".velocity") || x.ends_with(".curve"));
+                        s.mismatch(if mode_after_tl && timeline_only { "timeline:mode-read-after-timing-lines" } else { "flow-roundtrip" }, json!({"text": text, "diffs": d}));
+                    }
+                }
+            }
+            return;
+        }
         let r = guarded(&format!("flow {text:?}"), || {
             let mut b = rosu_map::from_str::<Beatmap>(&text).map_err(|e| e.to_string())?;
             let mut ho = rosu_map::from_str::<HitObjects>(&text).map_err(|e| e.to_string())?;
